@@ -3,6 +3,7 @@ package main
 import (
 	"fmt"
 	"go/token"
+	"go/types"
 	"strings"
 
 	"golang.org/x/tools/go/ssa"
@@ -48,6 +49,70 @@ func ruleSeqSingleAllocator(c *Ctx, r *Report) {
 	const rule = "seq-single-allocator"
 	owner, field := "internal/state.Common", "LocalSequenceNumber"
 	n := 0
+	isField := func(v ssa.Value) bool { return isFieldLoad(v, owner, field) }
+	// helpers of the module that are handed the counter slice: parameter -> the call sites that
+	// pass the field for it (closed world: a helper whose callers are not all known is no helper)
+	type handed struct {
+		call *ssa.Call
+		fn   *ssa.Function
+	}
+	seqParam := map[*ssa.Parameter][]handed{}
+	for _, fn := range c.Fns {
+		for _, b := range fn.Blocks {
+			for _, in := range b.Instrs {
+				call, ok := in.(*ssa.Call)
+				if !ok {
+					continue
+				}
+				callee := call.Call.StaticCallee()
+				if callee == nil || !inModule(callee) || len(callee.Blocks) == 0 {
+					continue
+				}
+				for i, a := range call.Call.Args {
+					if i >= len(callee.Params) {
+						break
+					}
+					if _, isSl := a.Type().Underlying().(*types.Slice); !isSl {
+						continue
+					}
+					if ls := c.Origins(a, 0); len(ls) > 0 && allLeaves(ls, isField) {
+						seqParam[callee.Params[i]] = append(seqParam[callee.Params[i]], handed{call, fn})
+					}
+				}
+			}
+		}
+	}
+	// the slice an element address points into: the field, or a parameter handed the field
+	// (through the phis of a grow loop)
+	var sliceOf func(v ssa.Value, d int) (isF bool, par *ssa.Parameter)
+	sliceOf = func(v ssa.Value, d int) (bool, *ssa.Parameter) {
+		if d > 8 {
+			return false, nil
+		}
+		switch x := v.(type) {
+		case *ssa.IndexAddr:
+			return sliceOf(x.X, d+1)
+		case *ssa.Parameter:
+			if _, ok := seqParam[x]; ok {
+				return false, x
+			}
+		case *ssa.Phi:
+			for _, e := range x.Edges {
+				if f, p := sliceOf(e, d+1); f || p != nil {
+					return f, p
+				}
+			}
+		case *ssa.Call:
+			if calleeName(&x.Call) == "builtin:append" && len(x.Call.Args) > 0 {
+				return sliceOf(x.Call.Args[0], d+1)
+			}
+		}
+		if addrIntoField(v, owner, field) {
+			return true, nil
+		}
+		return false, nil
+	}
+	const importFn = "(*dtls.State).generateInternalState"
 	// (a) atomic operations and element stores
 	for _, fn := range c.Fns {
 		for _, b := range fn.Blocks {
@@ -56,7 +121,11 @@ func ruleSeqSingleAllocator(c *Ctx, r *Report) {
 				switch x := in.(type) {
 				case *ssa.Call:
 					name := calleeName(&x.Call)
-					if !strings.HasPrefix(name, "sync/atomic.") || len(x.Call.Args) == 0 || !addrIntoField(x.Call.Args[0], owner, field) {
+					if !strings.HasPrefix(name, "sync/atomic.") || len(x.Call.Args) == 0 {
+						continue
+					}
+					direct, par := sliceOf(x.Call.Args[0], 0)
+					if !direct && par == nil {
 						continue
 					}
 					n++
@@ -66,36 +135,87 @@ func ruleSeqSingleAllocator(c *Ctx, r *Report) {
 						r.OKTrivial(rule, key, c.ipos(in), "read only")
 					case "sync/atomic.AddUint64":
 						d, isC := constInt(x.Call.Args[1])
-						r.Check(short(fn) == fnAllocSeq && isC && d == 1, rule, key, c.ipos(in),
+						r.Check(direct && short(fn) == fnAllocSeq && isC && d == 1, rule, key, c.ipos(in),
 							"the only increment: +1 in the allocator", "counter modified by an atomic add outside the allocator or by a step other than +1 (reuse or gap of record numbers)")
 					case "sync/atomic.StoreUint64":
+						fromSerialised := func(v ssa.Value) bool {
+							ls := c.OriginsIP(v, 0)
+							return len(ls) > 0 && allLeaves(ls, func(l ssa.Value) bool { return isFieldLoad(l, "dtls.State", "sequenceNumber") })
+						}
+						if par != nil {
+							// a helper that is handed the slice: every site that hands it the
+							// record counters is the import function, and what it stores there is
+							// the serialised counter
+							ok := len(seqParam[par]) > 0
+							for _, h := range seqParam[par] {
+								if short(h.fn) != importFn {
+									ok = false
+									continue
+								}
+								val := x.Call.Args[1]
+								if vp, isP := stripConv(val).(*ssa.Parameter); isP && vp.Parent() == fn {
+									if j := paramIndex(vp); j < len(h.call.Call.Args) {
+										val = h.call.Call.Args[j]
+									}
+								}
+								if !fromSerialised(val) {
+									ok = false
+								}
+							}
+							r.Check(ok, rule, key, c.ipos(in), "import of the serialised counter (State.sequenceNumber) through a helper handed the counters", "counter overwritten outside the state-import path: record numbers can repeat")
+							continue
+						}
 						// import path: value must come from State.sequenceNumber
 						// (directly, or in a private helper whose every caller is the import function)
-						importOnly := short(fn) == "(*dtls.State).generateInternalState"
+						importOnly := short(fn) == importFn
 						if !importOnly {
 							if sites, closed := c.staticCallers(fn); closed && len(sites) > 0 {
 								importOnly = true
 								for _, s := range sites {
-									if short(s.Fn) != "(*dtls.State).generateInternalState" {
+									if short(s.Fn) != importFn {
 										importOnly = false
 									}
 								}
 							}
 						}
-						ok := importOnly &&
-							allLeaves(c.OriginsIP(x.Call.Args[1], 0), func(v ssa.Value) bool { return isFieldLoad(v, "dtls.State", "sequenceNumber") })
+						ok := importOnly && fromSerialised(x.Call.Args[1])
 						r.Check(ok, rule, key, c.ipos(in), "import of the serialised counter (State.sequenceNumber)", "counter overwritten outside the state-import path: record numbers can repeat")
 					default:
 						r.Bad(rule, key, c.ipos(in), "unexpected atomic operation on the record sequence counter")
 					}
 				case *ssa.Store:
-					if ia, ok := x.Addr.(*ssa.IndexAddr); ok && addrIntoField(ia, owner, field) {
-						n++
-						r.Bad(rule, short(fn)+":element-store", c.ipos(in), "plain store into a sequence counter element (reset or rewind of record numbers)")
+					if ia, ok := x.Addr.(*ssa.IndexAddr); ok {
+						if direct, par := sliceOf(ia, 0); direct || par != nil {
+							n++
+							r.Bad(rule, short(fn)+":element-store", c.ipos(in), "plain store into a sequence counter element (reset or rewind of record numbers)")
+						}
 					}
 				}
 			}
 		}
+	}
+	// grownFrom: v is `base` itself, or base grown by appends of constant zeros
+	var grownFrom func(v ssa.Value, isBase func(ssa.Value) bool, d int) bool
+	growing := map[*ssa.Call]bool{} // appends under examination: a grow loop feeds its own append
+	grownFrom = func(v ssa.Value, isBase func(ssa.Value) bool, d int) bool {
+		if d > 6 {
+			return false
+		}
+		ls := c.Origins(v, 0)
+		return len(ls) > 0 && allLeaves(ls, func(l ssa.Value) bool {
+			if isBase(l) {
+				return true
+			}
+			if call, isCall := l.(*ssa.Call); isCall && calleeName(&call.Call) == "builtin:append" {
+				if growing[call] {
+					return true
+				}
+				growing[call] = true
+				defer delete(growing, call)
+				return appendedZeros(call) && grownFrom(call.Call.Args[0], isBase, d+1)
+			}
+			return false
+		})
 	}
 	// (b) stores to the slice field itself
 	for _, st := range c.StoresTo(owner, field) {
@@ -107,14 +227,33 @@ func ruleSeqSingleAllocator(c *Ctx, r *Report) {
 				name := calleeName(&call.Call)
 				if name == "builtin:append" {
 					// append(<same field>, 0)
-					base := c.Origins(call.Call.Args[0], 0)
-					if !allLeaves(base, func(b ssa.Value) bool { return isFieldLoad(b, owner, field) }) {
-						return false
-					}
-					return appendedZeros(call)
+					return appendedZeros(call) && grownFrom(call.Call.Args[0], isField, 0)
 				}
 				if strings.HasPrefix(name, "slices.Clone") {
 					return allLeaves(c.Origins(call.Call.Args[0], 0), func(b ssa.Value) bool { return isFieldLoad(b, owner, field) })
+				}
+				// a helper handed the same field that returns it, grown with zeros at most
+				if callee := call.Call.StaticCallee(); callee != nil && inModule(callee) && len(callee.Blocks) > 0 && callee.Signature.Results().Len() == 1 {
+					var par *ssa.Parameter
+					for i, a := range call.Call.Args {
+						if i < len(callee.Params) {
+							if _, has := seqParam[callee.Params[i]]; has && allLeaves(c.Origins(a, 0), isField) {
+								par = callee.Params[i]
+							}
+						}
+					}
+					if par == nil {
+						return false
+					}
+					good := true
+					for _, b := range callee.Blocks {
+						if ret, isRet := b.Instrs[len(b.Instrs)-1].(*ssa.Return); isRet {
+							if !grownFrom(ret.Results[0], func(l ssa.Value) bool { return l == ssa.Value(par) }, 0) {
+								good = false
+							}
+						}
+					}
+					return good
 				}
 			}
 			return isNilConst(v)
